@@ -106,12 +106,17 @@ def node_at(e, path):
     return e
 
 
-def probe(ctx, rep, tier, rng, items, meta, cls, clean, base, path, ncls, kind, u, pos, wire_p=None):
-    """one insertion: the property on the implementation (tree level and through XML / SGML text) and one correspondence case"""
+def probe(ctx, rep, tier, rng, items, meta, cls, clean, base, path, ncls, kind, u, pos, wire_p=None, more=()):
+    """one insertion (or several into the same aggregate: [more] = further (position, element) pairs, applied in turn): the property on
+    the implementation (tree level and through XML / SGML text) and one correspondence case"""
     dirty = copy.deepcopy(clean)
     node_at(dirty, path).insert(pos, u)
+    for p2, u2 in more:
+        node_at(dirty, path).insert(p2, u2)
     got, wtags = H.run_from_etree(ctx, dirty)
     case = {"class": cls.__name__, "kind": kind, "receiver": ncls.__name__, "path": list(path), "pos": pos, "inserted": ET.tostring(u).decode(), "clean": ET.tostring(clean).decode()}
+    if more:
+        case["more"] = [[p2, ET.tostring(u2).decode()] for p2, u2 in more]
     rep.count((cls.__name__, kind, path, pos, u.tag), nontrivial=True, kind="tree:" + kind)
     if got[0] != "ok":
         rep.failures.append(C.Failure("insert-%s:document-rejected" % kind, "inserting %s into %s of a valid %s makes conversion fail with %s" % (case["inserted"], ncls.__name__, cls.__name__, got[1]), case))
@@ -171,6 +176,15 @@ def run(rep, tier, rng):
                 u = make_insert(kind, utag, rng, [t for t in kc if t != utag] if kind in ("aggregate", "vendor-aggregate") else ())
                 pos = rng.randint(0, len(node_at(clean, path)))
                 probe(ctx, rep, tier, rng, items, meta, cls, clean, base, path, ncls, kind, u, pos)
+            # several unknown children in ONE aggregate (vendor-dotted and plain, elements and aggregates mixed), at independent positions
+            path, _, ncls = rng.choice(nodes)
+            n0 = len(node_at(clean, path))
+            tags = [t for t in unknown_tags(ncls, rng) if t not in ("CODE", "SEVERITY", "INNER", "DEEP")]
+            us = []
+            for j in range(rng.choice([2, 2, 3, 4])):
+                kind = rng.choice(["vendor-data", "vendor-data", "vendor-aggregate", "data", "aggregate"])
+                us.append((rng.randint(0, n0 + j), make_insert(kind, rng.choice(tags), rng)))
+            probe(ctx, rep, tier, rng, items, meta, cls, clean, base, path, ncls, "several-in-one-aggregate", us[0][1], us[0][0], more=us[1:])
     # ---- systematic stream: classes whose wire tags differ from their attribute names (groom / ungroom renames).  The renamed child is
     #      forced present and an unknown aggregate CONTAINING that wire tag (and one containing the attribute's own tag) goes to every position:
     #      otherwise-known content inside an unknown subtree must never be looked at, renamed or not
@@ -199,7 +213,8 @@ def run(rep, tier, rng):
     rep.rule = ("every concrete class: %d valid instance(s) -> to_etree; %d insertions each at a random aggregate node and position, kinds %s, tags unknown to the receiving class "
                 "(incl. tags known elsewhere); compared: conversion of clean vs contaminated document at tree level and through XML / SGML bytes (implementation), and "
                 "Model.Convert.from_etree vs Aggregate.from_etree on every contaminated tree; plus, for every class one of whose wire tags is not an attribute name (groom renames), "
-                "unknown aggregates holding that wire tag at EVERY position of an instance that has the renamed child. distinct by (class, kind, path, position, tag, form)" % (per_class, n_ins, KINDS))
+                "unknown aggregates holding that wire tag at EVERY position of an instance that has the renamed child; plus, per instance, 2-4 unknown children (vendor-dotted and "
+                "plain, elements and aggregates) inserted into ONE aggregate at independent positions. distinct by (class, kind, path, position, tag, form)" % (per_class, n_ins, KINDS))
     bad = C.coq_bad_indices(PROP, "insert", IMPORTS, "ccase_ok S", "ccase", items, shard=150, prelude="Local Open Scope string_scope.")
     for i in bad[:30]:
         rep.disagreements.append(dict(meta[i], case=items[i][:1200]))
@@ -214,6 +229,8 @@ def replay(obj):
     for k in r["path"]:
         node = node[k]
     node.insert(r["pos"], ET.fromstring(r["inserted"]))
+    for p2, x2 in r.get("more", []):
+        node.insert(p2, ET.fromstring(x2))
     if r.get("form"):
         render = render_xml if r["form"] == "xml" else render_sgml
         clean, dirty = parse_body(ctx, render(clean)), parse_body(ctx, render(dirty))
